@@ -28,8 +28,14 @@ class Op:
         self.core = core  # core ops are never disabled by the swarm mask
 
 
-def run_history(ch, tr, ops: Sequence[Op], n_min: int, n_max: int, after_step: Callable = None) -> int:
-    """Drive ``ops`` for a drawn number of steps. Returns the number of executed steps."""
+def run_history(ch, tr, ops: Sequence[Op], n_min: int, n_max: int, after_step: Callable = None, diagnose: Callable = None) -> int:
+    """Drive ``ops`` for a drawn number of steps. Returns the number of executed steps.
+
+    ``diagnose(where)``: the machine's unconditional full check.  With sparse observation (see ``Observer``) an operation
+    may meet a real object that is already inconsistent and fail inside real code with an arbitrary exception; before that
+    exception is reported as a harness error the full check runs and, if the state disagrees with the model, reports the
+    property violation that caused it.
+    """
     with ch.span("swarm"):
         weights = []
         for op in ops:
@@ -49,10 +55,41 @@ def run_history(ch, tr, ops: Sequence[Op], n_min: int, n_max: int, after_step: C
             if not any(w):
                 break
             k = ch.weighted(w)
-            ops[k].fn()
+            try:
+                ops[k].fn()
+            except (AssertionError, LookupError, ValueError, TypeError, AttributeError, ArithmeticError) as e:
+                if diagnose is not None:
+                    diagnose(f"operation {ops[k].name} failing with {e!r}")
+                raise
         finally:
             ch.end()
         done += 1
         if after_step is not None:
             after_step()
     return done
+
+
+class Observer:
+    """How often a run looks at the real object between operations.
+
+    Queries are not always innocent: listing, sorting or looking up can fill or repair caches, so a machine that checks
+    after every single operation heals exactly the stale state a realistic regression leaves behind, while a machine
+    that never looks in between misses regressions that need a lookup between two mutations.  Every run therefore draws
+    one mode: ``every`` (check after each operation), ``sparse`` (after each operation with probability 1/3, decided by
+    the chooser) or ``end`` (only at the end of the history).  The final check is unconditional.
+    """
+
+    def __init__(self, ch, tr):
+        with ch.span("observe"):
+            self.mode = ch.choice(["every", "every", "sparse", "end"])
+        self.ch = ch
+        tr.emit("observe", self.mode)
+        if self.mode != "every":
+            tr.probe("observation_" + self.mode)
+
+    def due(self) -> bool:
+        if self.mode == "every":
+            return True
+        if self.mode == "end":
+            return False
+        return self.ch.flag(1, 3)
